@@ -74,6 +74,14 @@ func ruleR12(c *Ctx) {
 				if sel, ok := x.Fun.(*ast.SelectorExpr); ok && sel.Sel.Name == "node" && len(x.Args) == 0 {
 					target = sel.X
 				}
+				// (*node4)(ref.pointer): a typed view that is dereferenced right away
+				if isConversion(info, x) && len(x.Args) == 1 {
+					if pt, ok := info.TypeOf(x).Underlying().(*types.Pointer); ok && c.m.kindByStruct(pt.Elem()) != nil {
+						if psel, ok := ast.Unparen(x.Args[0]).(*ast.SelectorExpr); ok && psel.Sel.Name == "pointer" {
+							target = psel.X
+						}
+					}
+				}
 			}
 			if target == nil {
 				return
